@@ -15,13 +15,25 @@ def gen_tagkw(r, p):
                    {'prio': 1, 'md': [['m' + str(r.randrange(3)), r.randrange(9)]]}, {'prio': -1, 'md': [['n', 'w' + str(r.randrange(9))]]}])
     return dict(kw)
 
-def gen_stage(r, sk, ctr, p_tag, top=True):
+P_RESTATE = 0.3
+
+def gen_stage(r, sk, ctr, p_tag, top=True, written=None, path=()):
+    """one stage over the skeleton; `written` (path -> values of the earlier stages, shared by the stages of a case) lets a
+    leaf restate a value that an earlier stage already wrote there, under its own tags: the later writer of an equal value
+    must still become the survivor (priority, metadata) and decide against the stages after it"""
     kw = gen_tagkw(r, p_tag * (0.4 if top else 1))
     if sk is None:
-        ctr[0] += 1
-        return S(ctr[0], kw=kw)
+        prev = written.get(path) if written is not None else None
+        if prev and r.random() < P_RESTATE:
+            v = r.choice(prev)
+        else:
+            ctr[0] += 1
+            v = ctr[0]
+        if written is not None:
+            written.setdefault(path, []).append(v)
+        return S(v, kw=kw)
     ks = [k for k in sk if r.random() < 0.7] or ([r.choice(list(sk))] if top else [])
-    return M([(k, gen_stage(r, sk[k], ctr, p_tag, False)) for k in ks], kw=kw)
+    return M([(k, gen_stage(r, sk[k], ctr, p_tag, False, written, path + (k,))) for k in ks], kw=kw)
 
 def leaves(n, inherited=None, path=()):
     """(path, effective priority, value, own metadata) of every leaf; the outermost priority tag wins"""
@@ -59,8 +71,11 @@ class C03(MergeFamProp):
     ID = 'C03'
     RULE = ('2-6 shape-compatible mapping documents drawn from a random skeleton (depth <= 3), every node optionally tagged '
             '!force / !weak / metadata (also combined, also on the document root), so that strong, normal and weak writers to one '
-            'leaf path interleave in every order; non-trivial = some leaf path is written by >= 2 stages with different '
-            'priorities; distinct by SHA-1')
+            'leaf path interleave in every order; a leaf restates, with probability 0.3, a value that an earlier stage already '
+            'wrote to the same path (same type, ==) under its own tags, otherwise it writes a fresh integer -- so the later '
+            'writer of an equal value has to take over priority and metadata and has to decide against the stages after it '
+            '(weak v / normal v / weak w, normal v / force v / normal w, also with the tag on an enclosing mapping); '
+            'non-trivial = some leaf path is written by >= 2 stages with different priorities; distinct by SHA-1')
     ASSUMPTIONS = ['arg-max oracle covers leaf paths of shape-compatible mapping documents; lists and type changes are the domain of C04']
 
     def corpus(self):
@@ -70,14 +85,21 @@ class C03(MergeFamProp):
             D(M({'a': M({'b': S(2)})}), M({'a': M({'b': S(1)})}, kw={'prio': -1})),
             D(M({'a': S(1, kw={'prio': -1, 'md': [['x', 1]]})}), M({'a': S(2, kw={'prio': 1, 'md': [['y', 2]]})}), M({'a': S(3, kw={'md': [['x', 3]]})}),
               M({'a': S(4, kw={'prio': -1})})),
+            # a later stage restates the value already there (seeded change S3-C03: "same value, nothing to replace")
+            D(M({'c': S(2)}), M({'c': S(2, kw={'prio': 1})})),                                                     # survivor is the !force writer
+            D(M({'a': S(1, kw={'prio': -1}), 'b': S(5, kw={'prio': -1})}), M({'a': S(1), 'b': S(7)}),
+              M({'a': S(2, kw={'prio': -1}), 'b': S(9, kw={'prio': -1})})),                                        # weak 1 / 1 / weak 2 -> 1
+            D(M({'a': S(1)}), M({'a': S(1, kw={'prio': 1})}), M({'a': S(2)})),                                     # 1 / force 1 / 2 -> 1
+            D(M({'x': S(3, kw={'md': [['who', 'first']]})}), M({'x': S(3, kw={'md': [['who', 'second'], ['extra', 1]]})})),
+            D(M({'a': M({'b': S(1)})}, kw={'prio': -1}), M({'a': M({'b': S(1)})}), M({'a': M({'b': S(2)})}, kw={'prio': -1})),
         ]
 
     def gen_cases(self, rng, n, tier):
         out = []
         for _ in range(n):
             sk = {k: skeleton(rng, 1) for k in rng.sample(KEYS, rng.randint(1, 3))}
-            ctr = [0]
-            docs = [{'raw': gen_stage(rng, sk, ctr, 0.3)} for _ in range(rng.randint(2, 6))]
+            ctr, written = [0], {}
+            docs = [{'raw': gen_stage(rng, sk, ctr, 0.3, written=written)} for _ in range(rng.randint(2, 6))]
             st = self.STYLES[rng.randrange(len(self.STYLES))]
             out.append({'docs': docs, 'style': list(st)})
         return out
@@ -136,6 +158,23 @@ class C03(MergeFamProp):
         if 'ok' not in cfg:
             return f'merged fine but evaluation failed: {json.dumps({k: v for k, v in cfg.items() if k != "log"})[:160]}'
         return None
+
+    def features(self, case, io):
+        f = super().features(case, io)
+        hist = {}
+        for d in case['docs']:
+            for p, pr, v, md in leaves(d['raw']):
+                hist.setdefault(p, []).append((pr, v, md))
+        for h in hist.values():
+            for j in range(1, len(h)):
+                for i in range(j):
+                    if h[i][1] == h[j][1] and type(h[i][1]) is type(h[j][1]):
+                        f.append('leaf:restated')
+                        if h[j][0] != h[i][0]: f.append('leaf:restated-other-priority')
+                        if h[j][2]: f.append('leaf:restated-with-metadata')
+                        if any(h[i][0] <= h[k][0] < h[j][0] and h[k][1] != h[j][1] for k in range(j + 1, len(h))):
+                            f.append('leaf:restated-higher-then-lower-writer')
+        return sorted(set(f))
 
     def nontrivial(self, case, io):
         seen = {}
